@@ -165,11 +165,13 @@ Print Assumptions processed_at_most_hop_count_times.
         starting with the chaining value of the last hop, XOR-stepped on arrival from outside;
     every AS in the run forwards and CurrHF ends behind the run;
     (3) the final hop of the path is delivered locally.
-    PARTIAL: the AS at a segment change (which validates the last hop of one segment and the
-    first hop of the next in one ingress) and the statement "also after try_reverse at any
-    position" are not composed into this theorem; both are exercised end to end on the real
-    code by the authentic-walk cases of the correspondence (forward, reversed at the end or in
-    the middle, and back), and [tamper_changes_owner_input] covers rejection. *)
+    PARTIAL: the runs inside the segments (this theorem), the AS at a segment change
+    ([authentic_crossover_forwards]) and the final hop ([authentic_last_hop_delivers]) are
+    proved separately and are not composed into one statement about a whole multi-segment
+    walk; "also after try_reverse at any position" is [reversal_keeps_chaining_state] below (the
+    reversed path is in the state clause (1)/(2) starts from, with entry from inside), again
+    not composed with the runs; whole walks -- forward, reversed at the end or in the middle,
+    and back -- are exercised on the real code by the authentic cases of the correspondence. *)
 Theorem authentic_verifies_both_directions_partial :
   forall (cmac : list N -> list N -> list N) (keys hops : list (list N)) (fi : bool)
          ci ch rsv s0 s1 s2 IF HF,
@@ -223,6 +225,51 @@ Proof.
   eapply as_delivers_authentic; eauto.
 Qed.
 Print Assumptions authentic_last_hop_delivers.
+
+(** The AS at a segment change: authentic last hop of one segment (validated with that segment's
+    chaining value) and authentic first hop of the next (validated with the SegID of the next
+    info field as it stands): validated at ingress and egress, forwarded, both pointers moved. *)
+Theorem authentic_crossover_forwards :
+  forall (cmac : list N -> list N -> list N) (key : list N) (fi : bool) ci ch rsv s0 s1 s2 IF HF,
+    meta_ok ci ch rsv s0 s1 s2 -> shaped s0 s1 s2 IF HF ->
+    ci + 1 < N.of_nat (length IF) -> ch + 2 < N.of_nat (length HF) -> ch + 2 <= 63 ->
+    Forall (fun f => bytes_ok f = true) IF -> Forall (fun f => bytes_ok f = true) HF ->
+    calc_seg_idx_aux ch 0 0 [s0; s1; s2] = Some (ci, false, true) ->
+    calc_seg_idx_aux (ch + 1) 0 0 [s0; s1; s2] = Some (ci + 1, true, false) ->
+    mac_ok cmac key (beta_used ci ch IF HF fi) (if_ts (nth (N.to_nat ci) IF [])) (nth (N.to_nat ch) HF []) ->
+    mac_ok cmac key (if_segid (nth (N.to_nat (ci + 1)) IF [])) (if_ts (nth (N.to_nat (ci + 1)) IF []))
+           (nth (N.to_nat (ch + 1)) HF []) ->
+    exists b' eg,
+      process_at_as (hop_mac_validator cmac key) fi (assemble ci ch rsv s0 s1 s2 IF HF) = (b', Forwarded eg)
+      /\ curr_hf b' = ch + 2 /\ curr_inf b' = ci + 1.
+Proof.
+  intros cmac key fi ci ch rsv s0 s1 s2 IF HF Hm Hs Hci Hch Hfit HbI HbH E0 E1 M0 M1.
+  eapply as_crossover_authentic; eauto.
+Qed.
+Print Assumptions authentic_crossover_forwards.
+
+(** Reversal at any position of a path with well-formed segment lengths keeps the chaining
+    state: the same hop field is under the pointer, the info field under the pointer has the
+    same SegID and timestamp with CONS_DIR negated, so the chaining value used on entry from
+    inside the AS ([beta_used .. true]) is exactly the SegID carried before the reversal. *)
+Theorem reversal_keeps_chaining_state :
+  forall ci ch rsv s0 s1 s2 IF HF b',
+    meta_ok ci ch rsv s0 s1 s2 -> shaped s0 s1 s2 IF HF ->
+    Forall (fun f => bytes_ok f = true) IF ->
+    N.of_nat (length IF) = rev_seg_count s1 s2 ->
+    view_try_reverse (assemble ci ch rsv s0 s1 s2 IF HF) = (b', Ok tt) ->
+    exists ci' ch' a c d,
+      let IF' := rev (map toggle_cons_dir IF) in
+      let HF' := rev HF in
+      b' = assemble ci' ch' rsv a c d IF' HF' /\ meta_ok ci' ch' rsv a c d /\ shaped a c d IF' HF'
+      /\ ci' < N.of_nat (length IF') /\ ch' < N.of_nat (length HF')
+      /\ nth (N.to_nat ch') HF' [] = nth (N.to_nat ch) HF []
+      /\ if_segid (nth (N.to_nat ci') IF' []) = if_segid (nth (N.to_nat ci) IF [])
+      /\ if_ts (nth (N.to_nat ci') IF' []) = if_ts (nth (N.to_nat ci) IF [])
+      /\ if_cons_dir (nth (N.to_nat ci') IF' []) = negb (if_cons_dir (nth (N.to_nat ci) IF []))
+      /\ beta_used ci' ch' IF' HF' true = if_segid (nth (N.to_nat ci) IF []).
+Proof. exact reverse_keeps_chaining_state. Qed.
+Print Assumptions reversal_keeps_chaining_state.
 
 (** non-vacuity: with the Gallina AES-128-CMAC, a two-hop construction-direction segment chained
     as the theorem requires is forwarded by its first AS and delivered at its second *)
